@@ -30,6 +30,7 @@ class SimState:
     wall_offset_ns = 0          # wall = loop_ns + wall_offset_ns
     tz_offset_us = 0            # local = wall + tz
     read_cost_ns = 1_000        # every wall clock read costs this much (Zeno rule)
+    clock_gran_us = 1           # granularity of the wall clock as the code under test reads it
     sleep_floor_ns = 30_000     # blocking sleep overshoots by this much
     hash_salt = 0
     clock_reads = 0
@@ -50,13 +51,22 @@ def wall_now() -> float:
     return wall_us() / 1e6
 
 
+def read_us() -> int:
+    """The wall clock as the code under test reads it: quantised to the clock's granularity."""
+    us = wall_us()
+    g = S.clock_gran_us
+    return us - us % g if g > 1 else us
+
+
 def _time():
     S.clock_reads += 1
     S.loop._ns += S.read_cost_ns
-    return wall_us() / 1e6
+    return read_us() / 1e6
 
 
 def _sleep(secs):
+    if secs < 0:
+        raise ValueError("sleep length must be non-negative")     # as the real time.sleep
     S.blocking_sleeps += 1
     if S.blocking_sleeps > S.max_blocking_sleeps:
         from .loop import SimLivelock
@@ -86,7 +96,7 @@ class _DatetimeProxy:
     def now(tz=None):
         S.clock_reads += 1
         S.loop._ns += S.read_cost_ns
-        us = wall_us()
+        us = read_us()
         if tz is None:
             return _EPOCH + _real_dt.timedelta(microseconds=us + S.tz_offset_us)
         utc = _EPOCH + _real_dt.timedelta(microseconds=us)
@@ -179,7 +189,7 @@ def install():
 
 
 def bind(loop, *, wall_start_us: int = 1_700_000_000_000_000, tz_offset_s: int = 0,
-         hash_salt: int = 0, read_cost_ns: int = 1_000):
+         hash_salt: int = 0, read_cost_ns: int = 1_000, clock_gran_us: int = 1):
     """Attach the seams to a new run."""
     install()
     edzed.reset_circuit()
@@ -188,6 +198,7 @@ def bind(loop, *, wall_start_us: int = 1_700_000_000_000_000, tz_offset_s: int =
     S.tz_offset_us = tz_offset_s * 1_000_000
     S.hash_salt = hash_salt
     S.read_cost_ns = read_cost_ns
+    S.clock_gran_us = max(1, int(clock_gran_us))
     S.clock_reads = 0
     S.blocking_sleeps = 0
     S.log_records = []
